@@ -170,8 +170,17 @@ def _run_chunk(arg):
     for j, case in enumerate(chunk):
         try:
             res = _MODULE.run(case)
-        except Exception:
-            raise RuntimeError("machinery error in %s.run(%r):\n%s" % (_MODULE.__name__, case, traceback.format_exc()))
+        except Exception as exc:
+            if os.environ.get("VERIF_STRICT_MACHINERY"):
+                raise RuntimeError("machinery error in %s.run(%r):\n%s" % (_MODULE.__name__, case, traceback.format_exc()))
+            # The drivers are silent on the unchanged tree (that is checked before every commit).  If a driver trips over the code under
+            # test - an attribute that vanished, a file where a directory is expected - the code has changed its observable behaviour in
+            # a way the driver never met: reported as a violation of this property with the traceback, not as "machinery broken".
+            tb = traceback.format_exc()
+            pid = getattr(_MODULE, "ID", "C??")
+            res = {"evals": 1, "nontrivial": 0, "judged": 0, "outcomes": {"driver-exception:" + type(exc).__name__: 1}, "sample": None,
+                   "viols": [V("%s:driver-exception:%s" % (pid, type(exc).__name__),
+                               "the driver could not complete this case on the tree under test: %s: %s" % (type(exc).__name__, str(exc)[:200]), traceback=tb[-1500:])]}
         _absorb(acc, (idx, j), case, res)
         if j == 0:
             acc["samples"].append(jsonable(res.get("sample") or (_MODULE.describe(case, res) if hasattr(_MODULE, "describe") else case)))
@@ -377,7 +386,11 @@ def _replay(mod, path):
         case = mod.decode_case(case)
     obs = []
     for _ in range(2):
-        res = mod.run(case)
+        try:
+            res = mod.run(case)
+        except Exception as exc:  # same convention as in _run_chunk
+            res = {"viols": [V("%s:driver-exception:%s" % (mod.ID, type(exc).__name__),
+                               "the driver could not complete this case on the tree under test: %s: %s" % (type(exc).__name__, str(exc)[:200]))]}
         obs.append(sorted((v["key"], _ADDR.sub(" at 0x?", v["what"])) for v in res.get("viols") or ()))
     if obs[0] != obs[1]:
         print("REPLAY-NONDETERMINISTIC: two runs of the same case differ:\n %r\n %r" % (obs[0], obs[1]))
